@@ -128,9 +128,7 @@ theorem transform_namelen_only (n : Nat) (m : FMsa) : transform { namelen := som
   simp [transform, convertSyms]
 
 /-- away from the Clustal formats the tools' write call is `esl_msafile_Write` -/
-theorem msafileWriteTool_afa (abc : Option Abc) (m : FMsa) : msafileWriteTool "afa" abc m = msafileWrite "afa" abc m := by
-  have h : ("afa" == "clustal" || "afa" == "clustallike") = false := by decide
-  simp [msafileWriteTool, h]
+theorem msafileWriteTool_afa (abc : Option Abc) (m : FMsa) : msafileWriteTool "afa" abc m = msafileWrite "afa" abc m := rfl
 
 /-! ## unaligned output from an alignment file -/
 
